@@ -382,24 +382,58 @@ Proof. intros Hk Hp. rewrite run_store_st by assumption. apply mrun_newest. Qed.
 
 Definition rec_ok (x : ext) (e : msil) : Prop := compiles x (s_ms (m_sil e)) = true /\ marshal_ok x (m_sil e) = true.
 
-Lemma merge_one_as_set x now ov S n e :
-  marshal_ok x (m_sil e) = true ->
-  exists ch ad, set_silence x now S e = Some (fst (merge_one x now ov (S, n) e), ch, ad).
+Lemma vi_remove_perm id l l' : vi_remove id l = Some l' -> map snd l ≡ₚ id :: map snd l' /\ (forall P, Forall P l -> Forall P l').
 Proof.
-  intros Hm. unfold set_silence, merge_one. rewrite Hm. cbn [negb]. unfold st_merge.
-  destruct (m_exp e <? now); [eauto|].
-  destruct (st S !! m_id e) as [p|]; [destruct (m_upd p <? m_upd e)|]; eauto.
+  revert l'. induction l as [|sv r IH]; intros l'; [discriminate|]. cbn [vi_remove].
+  destruct (String.eqb_spec (snd sv) id) as [Heq|Hne].
+  - intros [= <-]. cbn. rewrite Heq. split; [reflexivity|]. intros P H. apply Forall_cons in H as [_ H]. exact H.
+  - destruct (vi_remove id r) as [r'|]; [|discriminate]. intros [= <-]. destruct (IH r' eq_refl) as [Hp Hf]. split.
+    + cbn. rewrite Hp. apply Permutation_swap.
+    + intros P H. apply Forall_cons in H as [H1 H2]. apply Forall_cons. split; [exact H1|apply Hf; exact H2].
+Qed.
+
+Lemma reindex_inv x S id : Inv x S -> Inv x (reindex_silence S id).
+Proof.
+  intros HI. unfold reindex_silence. destruct (vi_remove id (vi S)) as [l|] eqn:Hr.
+  - destruct (vi_remove_perm _ _ _ Hr) as [Hp Hf].
+    assert (Hp' : map snd (l ++ [(ver S + 1, id)]) ≡ₚ map snd (vi S)).
+    { rewrite map_app. cbn. rewrite Hp. rewrite Permutation_app_comm. reflexivity. }
+    constructor; unfold key_ok; cbn [st mi vi ver].
+    + apply (inv_key _ _ HI).
+    + intros k. rewrite Hp'. apply (inv_vi _ _ HI).
+    + apply (inv_mi _ _ HI).
+    + rewrite Hp'. apply (inv_nodup _ _ HI).
+    + apply Forall_app. split.
+      * eapply Forall_impl; [apply Hf, (inv_ver _ _ HI)|]. cbn. intros; lia.
+      * constructor; [cbn; lia|constructor].
+    + apply (inv_comp _ _ HI).
+    + apply (inv_marshal _ _ HI).
+  - constructor; unfold key_ok; cbn [st mi vi ver]; try apply HI.
+    eapply Forall_impl; [apply (inv_ver _ _ HI)|]. cbn. intros; lia.
+Qed.
+
+Lemma merge_one_inv x now ov S n e : Inv x S -> rec_ok x e -> Inv x (fst (merge_one x now ov (S, n) e)).
+Proof.
+  intros HI [Hc Hm].
+  assert (Hs : exists ch ad, set_silence x now S e = Some
+            (let r := st_merge now (st S) e in
+             if mad r then index_silence x (with_st S (mst r)) (m_sil e) else with_st S (mst r), ch, ad)).
+  { rewrite set_silence_spec, Hm. cbn. eauto. }
+  destruct Hs as (ch & ad & Hs). pose proof (set_silence_inv x now S e _ ch ad HI Hs Hc) as HI'. cbn zeta in HI'.
+  unfold merge_one. unfold mad, mst in HI'. destruct (st_merge now (st S) e) as [[s' merged] added] eqn:E. cbn [fst snd] in HI'.
+  destruct merged, added; cbn [fst]; try exact HI'.
+  - apply reindex_inv. exact HI'.
+  - exfalso. pose proof (st_merge_added now (st S) e) as Ha. rewrite E in Ha. unfold mad, mch in Ha. cbn in Ha.
+    destruct (Ha eq_refl) as [_ Hf]. discriminate.
 Qed.
 
 Lemma merge_fold_inv x now ov es : forall S n,
   Inv x S -> Forall (rec_ok x) es -> Inv x (fst (foldl (merge_one x now ov) (S, n) es)).
 Proof.
   induction es as [|e es IH]; intros S n HI H; [exact HI|].
-  apply Forall_cons in H as [[Hc Hm] H]. cbn [foldl].
+  apply Forall_cons in H as [He H]. cbn [foldl].
   destruct (merge_one x now ov (S, n) e) as [S1 n1] eqn:E.
-  apply IH; [|exact H].
-  destruct (merge_one_as_set x now ov S n e Hm) as (ch & ad & Hs). rewrite E in Hs. cbn [fst] in Hs.
-  eapply set_silence_inv; eauto.
+  apply IH; [|exact H]. change S1 with (fst (S1, n1)). rewrite <- E. apply merge_one_inv; assumption.
 Qed.
 
 Theorem merge_op_inv x now S batch order blen :
@@ -435,12 +469,13 @@ Proof.
   - destruct Hmax as (_ & Hl). rewrite Hl in Ht. destruct Ht.
 Qed.
 
-(* F1 (DESIGN section 8), stated as a fact of the code: a merge that REPLACES an existing id does not touch the matcher
-   index, the version index or the version counter — only a NEW id is indexed. *)
-Lemma merge_one_replace_no_index x now ov S n e p :
-  st S !! m_id e = Some p ->
-  let S' := fst (merge_one x now ov (S, n) e) in mi S' = mi S /\ vi S' = vi S /\ ver S' = ver S.
+(* F1 (DESIGN section 8) after the repo fix ca83c00: a merge that REPLACES the stored version of a known id gives the id
+   the next version (and moves its version-index entry to the tail), so a QSince scan from any earlier version
+   reaches it; the matcher index is untouched. *)
+Lemma merge_one_replace_reindexes x now ov S n e p :
+  st S !! m_id e = Some p -> m_upd p < m_upd e -> now <= m_exp e ->
+  fst (merge_one x now ov (S, n) e) = reindex_silence (with_st S (<[m_id e := e]> (st S))) (m_id e).
 Proof.
-  intros Hp. unfold merge_one, st_merge. destruct (m_exp e <? now); [cbn; auto|]. rewrite Hp.
-  destruct (m_upd p <? m_upd e); cbn; auto.
+  intros Hp Hu Hx. unfold merge_one, st_merge. destruct (m_exp e <? now) eqn:E1; [lia|]. rewrite Hp.
+  destruct (m_upd p <? m_upd e) eqn:E2; [reflexivity|lia].
 Qed.
